@@ -347,6 +347,62 @@ def gen_partition(tx: ast.Module) -> str:
             "  negb (py_empty append_files) || negb (py_empty deleted_paths).\n")
 
 
+# ---------------------------------------------------------------------------------------------- every attempt carries the whole queue
+_MUTATORS = {"update", "add", "discard", "remove", "clear", "pop", "extend", "append", "insert", "sort", "reverse",
+             "difference_update", "intersection_update", "symmetric_difference_update", "__iand__", "__isub__", "__ior__"}
+
+
+def _contains(outer: ast.AST, inner: ast.AST) -> bool:
+    return any(n is inner for n in ast.walk(outer))
+
+
+def gen_attempt_facts(tx: ast.Module) -> str:
+    """Two counted source facts (C02 / C01: a retried transaction re-commits its WHOLE queue):
+       gen_partition_per_attempt   the partition accumulators are (re)initialised and filled inside the body of the retry loop of
+                                   Transaction.commit, after that attempt's refresh(), from self._operations (which commit() never mutates);
+       gen_partition_args_kept     no statement after the partition loop -- in commit() or in _commit_file_ops, which receives the
+                                   accumulators -- rebinds, augments or calls a mutating method on append_files / deleted_paths."""
+    commit = find_function(tx, "commit", "Transaction")
+    whiles = [n for n in ast.walk(commit) if isinstance(n, ast.While)]
+    if len(whiles) != 1:
+        raise Unsupported("Transaction.commit: expected exactly one retry loop")
+    loop = whiles[0]
+    part = [n for n in ast.walk(commit) if isinstance(n, ast.For) and _u(n.iter) == "self._operations"]
+    inits = [n for n in ast.walk(commit) if isinstance(n, (ast.Assign, ast.AnnAssign))
+             and _u(n.targets[0] if isinstance(n, ast.Assign) else n.target) in ("append_files", "deleted_paths", "expire_cutoff")
+             and not any(_contains(p_, n) for p_ in part)]
+    per_attempt = (len(part) == 1 and _contains(loop, part[0]) and len(inits) == 3 and all(_contains(loop, n) for n in inits)
+                   and all(n.lineno < part[0].lineno for n in inits))
+    # commit() itself never edits the queue while committing
+    for n in ast.walk(commit):
+        if isinstance(n, ast.Call) and isinstance(n.func, ast.Attribute) and _u(n.func.value) == "self._operations" and n.func.attr in _MUTATORS:
+            per_attempt = False
+        if isinstance(n, (ast.Assign, ast.AugAssign, ast.Delete)):
+            tg = n.targets if isinstance(n, (ast.Assign, ast.Delete)) else [n.target]
+            if any(_u(t).startswith("self._operations") for t in tg):
+                per_attempt = False
+    kept = True
+    fo = find_function(tx, "_commit_file_ops", "Transaction")
+    after = [n for n in ast.walk(commit) if hasattr(n, "lineno") and part and n.lineno > part[0].end_lineno]
+    for n in list(ast.walk(fo)) + after:
+        if isinstance(n, ast.AugAssign) and _u(n.target) in ("append_files", "deleted_paths"):
+            kept = False
+        if isinstance(n, (ast.Assign, ast.AnnAssign)):
+            tg = n.targets if isinstance(n, ast.Assign) else [n.target]
+            if any(_u(t) in ("append_files", "deleted_paths") or _u(t).startswith(("append_files[", "deleted_paths[")) for t in tg):
+                kept = False
+        if isinstance(n, ast.Delete) and any(_u(t).startswith(("append_files", "deleted_paths")) for t in n.targets):
+            kept = False
+        if isinstance(n, ast.Call) and isinstance(n.func, ast.Attribute) and _u(n.func.value) in ("append_files", "deleted_paths") \
+                and n.func.attr in _MUTATORS:
+            kept = False
+    b = lambda v: "true" if v else "false"
+    return ("(* counted on the source: the queue is partitioned afresh in every attempt of the retry loop, and nothing after the\n"
+            "   partition (commit, _commit_file_ops) rebinds or mutates the accumulators *)\n"
+            f"Definition gen_partition_per_attempt : bool := {b(per_attempt)}.\n"
+            f"Definition gen_partition_args_kept : bool := {b(kept)}.\n")
+
+
 @generator("GenFileOps.v")
 def gen(src: str) -> str:
     tx = parse_module(src, "transaction.py")
@@ -361,6 +417,7 @@ def gen(src: str) -> str:
         "Open Scope Z_scope.",
         "",
         gen_partition(tx),
+        gen_attempt_facts(tx),
         gen_base(fn),
         gen_final(fn),
         gen_append(fn),
